@@ -752,9 +752,14 @@ theorem readAug_ok {C : Cfi} {S : DwarfStructs} {pos n : Nat} {d rest : Bytes} (
     simp only [mkStruct]
     rw [pf_step p, pf_nil]
     simp [dropCtx, Except.map, Fields.set]
+  have hlen : pos + n + d.length ≤ C.data.length := by
+    have := congrArg List.length hd
+    simp only [List.length_drop, List.length_append, encUlebN_length] at this
+    omega
+  have hnot : ¬ (d.length ≥ 2 ^ 63 ∧ C.data.length < pos + n + d.length) := by omega
   unfold readAugmentationData
   simp only [heh, hu, sp, Bool.not_true, Bool.false_eq_true, if_false, bind, Except.bind, Val.getNat, Val.getField,
-    Fields.getR, Fields.get?, if_true, asNat_nat, pure, Except.pure, readN, h1]
+    Fields.getR, Fields.get?, if_true, asNat_nat, pure, Except.pure, readN, h1, hnot]
   simp
 
 theorem cieAug_none {C : Cfi} {S : DwarfStructs} {header : Fields} {pos : Nat}
